@@ -26,6 +26,10 @@ def units(tier):
         us.append(Unit(H.Crc32Whole, {'n': n}))
     for plat, seen in ((0xef, 0), (0xef, 1), (0, 0)):
         us.append(Unit(H.ReshuffleEltoritoEntry, {'platform': plat, 'seen': seen}))
+    # whole images: MBR / GPT decoded independently on the written image, boot files moving after add_isohybrid
+    from contracts import boot as B
+    for v in sorted(B.HYBRIDS):
+        us.append(Unit(B.HybridImage, {'variant': v}))
     return us
 
 
@@ -34,6 +38,7 @@ def canaries(tier):
 
 
 META = {}
+OPTS = {'quick': {'unit_timeout_s': 900}, 'thorough': {'unit_timeout_s': 3000}}
 
 META = {
     'assumptions': [
@@ -46,11 +51,11 @@ META = {
         'that _write_fp writes hybrid data only in [0, 32768) and after space_size*lbs (frame over the output file) is part of C04/C12-pad composition and is not decided here',
         'APM partition map contents (Apple partition records) are only covered by the C05 round-trip contracts',
     ],
-    'bounded': [],
+    'bounded': ['5 whole-image hybrid scenarios (MBR / GPT decoded independently; boot files moving after add_isohybrid)'],
 }
 
 MANIFEST = {
-    'level_text': 'Proof (deductive): contracts from the C12 statement on the real ASTs of isohybrid.IsoHybrid.{_calc_cc, record, record_padding, new, update_rba, update_efi, update_mac}, GPT.record (primary and backup, with/without Mac), GPTHeader.record, crc32 (step lemma for every 32-bit state and byte), PyCdlib.add_isohybrid, and the El Torito placement loop body of PyCdlib._reshuffle_extents (mechanically extracted fragment). 0x55AA, exactly one active partition covering the cylinder-padded image, rba = 4 x boot sector, EFI/Mac partitions delimiting exactly the entry being placed in BOTH GPTs, header/array CRCs over the right bytes, mirror LBAs, padding to whole cylinders. Five defects found by failing obligations were repaired in /repo (see known_findings.json).',
+    'level_text': 'Proof (deductive): contracts from the C12 statement on the real ASTs of isohybrid.IsoHybrid.{_calc_cc, record, record_padding, new, update_rba, update_efi, update_mac}, GPT.record (primary and backup, with/without Mac), GPTHeader.record, crc32 (step lemma for every 32-bit state and byte), PyCdlib.add_isohybrid, and the El Torito placement loop body of PyCdlib._reshuffle_extents (mechanically extracted fragment). 0x55AA, exactly one active partition covering the cylinder-padded image, rba = 4 x boot sector, EFI/Mac partitions delimiting exactly the entry being placed in BOTH GPTs, header/array CRCs over the right bytes, mirror LBAs, padding to whole cylinders. Plus five whole-image scenarios executed by the verifier and judged by an independent MBR / GPT reader (signature, id, the one active partition in the requested slot covering the padded image, boot address = 4 x the sector where the El Torito boot file really starts, whole cylinders, valid ISO underneath, GPT header and array CRCs, primary / backup mirror, EFI partition = sectors of the EFI image). Five defects found by failing obligations were repaired in /repo (see known_findings.json).',
     'level_note': 'Trusted: pyvc (cross-checked per path against CPython, canary), z3/cvc5, struct model (validated each run). Geometry is an enumerated family for the layout obligations (quick run = boundary members, so the quick run does not claim the whole family). crc32 at call sites is an assumed-pure callee contract proved separately; induction over data length and the output-file frame are not machine-checked.',
     'design_ref': 'DESIGN.md section 4 C12',
 }
